@@ -55,6 +55,11 @@ func (d dereference) rSchema(rs *regex.RSchema) {
 }
 
 func (d *dereference) jSchema(astNode schema.ASTNode) {
+	if astNode.TokenType == "" && astNode.SchemaType == "" {
+		// The schema without an example (empty, or contains only comments).
+		return
+	}
+
 	if rule, ok := astNode.Rules.Get("or"); ok {
 		for _, item := range rule.Items {
 			d.orItem(item)
